@@ -176,6 +176,11 @@ pub fn run(ctx: &mut Ctx) {
       memory_write_byte(mp, 0x2000, [2u8, 3, 6, 7][(page % 4) as usize]);
       memory_write_byte(mp, 0x6000, 1);
       memory_write_byte(mp, 0x4000, 1 + page % 3);
+      // the display is on for every other page (power-on LCDC is 0): the transfer then runs
+      // while the LCD controller passes through modes 2, 3, 0 and 1 (`warm` sets where it starts)
+      if page % 2 == 1 {
+        memory_write_byte(mp, 0xff40, 0x91);
+      }
       for a in (0x8000u32..0xe000).chain(0xff80..0xffff) {
         memory_write_byte(mp, a as u16, (a as u8).wrapping_mul(3) ^ ((a >> 8) as u8));
       }
